@@ -1,0 +1,72 @@
+//! Verification hooks (feature `verif` only). Pure recorders: thread-local buffers that an
+//! external harness drains. Nothing here changes a value the program uses.
+use std::cell::RefCell;
+
+#[derive(Clone, Debug, PartialEq, Eq)]
+pub struct SwapStepRecord {
+    pub amount_remaining_before: u64,
+    pub sqrt_price_before: u128,
+    pub next_tick_index: i32,
+    pub next_tick_sqrt_price: u128,
+    pub sqrt_price_target: u128,
+    pub bounded_sqrt_price_target: u128,
+    pub liquidity: u128,
+    pub total_fee_rate: u32,
+    pub amount_in: u64,
+    pub amount_out: u64,
+    pub fee_amount: u64,
+    pub next_price: u128,
+    pub skipped: bool,
+}
+
+#[derive(Clone, Debug, PartialEq, Eq)]
+pub struct TickCrossRecord {
+    pub tick_index: i32,
+    pub liquidity_net: i128,
+    pub a_to_b: bool,
+    pub liquidity_before: u128,
+    pub liquidity_after: u128,
+}
+
+#[derive(Clone, Debug, PartialEq, Eq)]
+pub enum SwapTrace {
+    Begin {
+        a_to_b: bool,
+        amount: u64,
+        amount_specified_is_input: bool,
+        sqrt_price: u128,
+        liquidity: u128,
+    },
+    Step(SwapStepRecord),
+    Cross(TickCrossRecord),
+}
+
+thread_local! {
+    static SWAP_TRACE: RefCell<Vec<SwapTrace>> = const { RefCell::new(Vec::new()) };
+    static TICK_ESTIMATE: RefCell<Option<(i32, i32)>> = const { RefCell::new(None) };
+    static PINO_EVENTS: RefCell<Vec<Vec<u8>>> = const { RefCell::new(Vec::new()) };
+}
+
+pub fn record_swap(t: SwapTrace) {
+    SWAP_TRACE.with(|v| v.borrow_mut().push(t));
+}
+pub fn take_swap_trace() -> Vec<SwapTrace> {
+    SWAP_TRACE.with(|v| std::mem::take(&mut *v.borrow_mut()))
+}
+pub fn record_tick_estimate(low: i32, high: i32) {
+    TICK_ESTIMATE.with(|v| *v.borrow_mut() = Some((low, high)));
+}
+pub fn take_tick_estimate() -> Option<(i32, i32)> {
+    TICK_ESTIMATE.with(|v| v.borrow_mut().take())
+}
+pub fn record_pino_event(data: &[&[u8]]) {
+    PINO_EVENTS.with(|v| {
+        let mut v = v.borrow_mut();
+        for d in data {
+            v.push(d.to_vec());
+        }
+    });
+}
+pub fn take_pino_events() -> Vec<Vec<u8>> {
+    PINO_EVENTS.with(|v| std::mem::take(&mut *v.borrow_mut()))
+}
